@@ -126,10 +126,15 @@ let eval case impl =
     (* every accepted connection has ended by the end of the run: its stream must have been dropped exactly once *)
     let streams_ok = dropped = accepted && (match final with Some s -> M.all_ended s && int_of_nat (M.open_streams s) = 0 | None -> false) in
     let leak = accepted - freed in
-    let c15_other = verdict <> "ACCEPTED" || not streams_ok in
+    (* the allocator's view must agree with the event log: one record allocated per accept, one deallocated per logged free -
+       a record freed anywhere else (or twice, or never allocated through the loop) shows here *)
+    let reca = (try int_of_string (get "recalloc") with _ -> accepted) and recf = (try int_of_string (get "recfree") with _ -> freed) in
+    let alloc_ok = reca = accepted && recf = freed in
+    let c15_other = verdict <> "ACCEPTED" || not streams_ok || not alloc_ok in
     let fails =
       (if c14 then [] else [("C14", "-")]) @
       (if c15_other then [("C15", "-")] else if leak > 0 then [("C15", "F25")] else []) in
-    let model = if verdict = "ACCEPTED" && streams_ok && clients_ok then impl else verdict ^ (if streams_ok then "" else " streams-not-all-dropped") in
+    let model = if verdict = "ACCEPTED" && streams_ok && clients_ok && alloc_ok then impl
+      else verdict ^ (if streams_ok then "" else " streams-not-all-dropped") ^ (if alloc_ok then "" else Printf.sprintf " allocator-disagrees(recalloc=%d accepted=%d recfree=%d freed=%d)" reca accepted recf freed) in
     (model, fails)
   | [] -> ("?", [("C14", "-"); ("C15", "-")])
